@@ -38,12 +38,15 @@ def anyLoc (i : Inst) (s : State) : Bool := (List.range i.n).any (fun k => locOk
 
 /-- `get_action_mask`: depot masked iff `(current_node == 0 | current_tech == T - 1) & any loc free` -/
 def mask (i : Inst) (s : State) (a : Nat) : Bool :=
-  if a = 0 then !((s.cur == 0 || s.tech == i.T - 1) && anyLoc i s) else locOk i s a
+  -- the comparison `current_tech == techs.size(-2) - 1` (operator and the constant 1) is extracted from the source
+  if a = 0 then
+    !((s.cur == 0 || Params.svrpMaskLastCmp.evalNat s.tech (i.T - Params.svrpMaskLastOffset)) && anyLoc i s)
+  else locOk i s a
 
 /-- `_step`: `current_tech += (action == 0)` (also on padding steps), mark visited -/
 def step (_ : Inst) (s : State) (a : Nat) : State :=
   { cur := a
-    tech := s.tech + (if a = 0 then 1 else 0)
+    tech := s.tech + (if Params.svrpStepDepotCmp.evalNat a 0 then 1 else 0)   -- `+= (current_node == 0)`
     vis := upd s.vis a true }
 
 /-- `done = visited.sum(-2) == visited.size(-2)` -/
@@ -72,6 +75,61 @@ def weightedLen (i : Inst) (as : List Nat) : Int :=
   (List.zipWith (· * ·) (List.zipWith (fun a b => i.D a b) (0 :: as) (roll1 (0 :: as))) (costRow i 0 as)).sum
 
 def reward (i : Inst) (as : List Nat) : Int := - weightedLen i as
+
+/-! ### the batched cost table of `_get_reward`
+
+`costs = zeros(B, L+1)`; `indices = nonzero(actions == 0)` (row-major); the loop
+```
+start = tech = 0; batch = 0
+for each in indices:
+    if each[0] > batch:
+        costs[batch, start:] = tech_costs[tech]      # (*) flush the previous row
+        start = tech = 0; batch = each[0]
+    end = each[-1] + 1
+    costs[batch, start:end] = tech_costs[tech]; tech += 1; start = end
+costs[batch, start:] = tech_costs[tech]              # (**) flush the last row
+```
+is modelled on a table `Nat → Nat → Int` (row, position).  Whether the two flush statements (*) and (**) are
+present is extracted from the source (`Params.svrpRewardFlushOnRowChange`, `Params.svrpRewardFlushAtEnd`). -/
+
+/-- `costs[b, lo:hi] = v` -/
+def fillRow (c : Nat → Nat → Int) (b lo hi : Nat) (v : Int) : Nat → Nat → Int :=
+  fun r p => if r = b ∧ lo ≤ p ∧ p < hi then v else c r p
+
+structure LoopState where
+  costs : Nat → Nat → Int
+  start : Nat
+  tech  : Nat
+  batch : Nat
+
+/-- the state the `if each[0] > batch:` block produces -/
+def rowChange (i : Inst) (len : Nat) (st : LoopState) (b : Nat) : LoopState :=
+  { costs := if Params.svrpRewardFlushOnRowChange then fillRow st.costs st.batch st.start len (i.costs st.tech)
+             else st.costs
+    start := 0, tech := 0, batch := b }
+
+/-- loop body for `each = (b, c)`; `len` = number of columns of `costs` -/
+def loopBody (i : Inst) (len : Nat) (st : LoopState) (bc : Nat × Nat) : LoopState :=
+  let st1 := if bc.1 > st.batch then rowChange i len st bc.1 else st
+  { costs := fillRow st1.costs st1.batch st1.start (bc.2 + 1) (i.costs st1.tech)
+    start := bc.2 + 1, tech := st1.tech + 1, batch := st1.batch }
+
+/-- columns of the depot visits of one row (`c` = column of the first listed action) -/
+def zeroCols : Nat → List Nat → List Nat
+  | _, [] => []
+  | c, a :: as => if a = 0 then c :: zeroCols (c + 1) as else zeroCols (c + 1) as
+
+/-- `torch.nonzero(actions == 0)` for the rows `b, b+1, …` -/
+def zeroIndices : Nat → List (List Nat) → List (Nat × Nat)
+  | _, [] => []
+  | b, r :: rs => (zeroCols 0 r).map (fun c => (b, c)) ++ zeroIndices (b + 1) rs
+
+def loopInit : LoopState := { costs := fun _ _ => 0, start := 0, tech := 0, batch := 0 }
+
+/-- the cost table `_get_reward` builds for a batch of action rows -/
+def costsBatch (i : Inst) (len : Nat) (rows : List (List Nat)) : Nat → Nat → Int :=
+  let st := (zeroIndices 0 rows).foldl (loopBody i len) loopInit
+  if Params.svrpRewardFlushAtEnd then fillRow st.costs st.batch st.start len (i.costs st.tech) else st.costs
 
 /-- number of depot visits in an action list (`tech_costs` is indexed up to this number) -/
 def zeros (as : List Nat) : Nat := as.count 0
